@@ -640,6 +640,17 @@ class AttackGraph():
         the MAL language specification provided at initialization.
         """
 
+        # The nodes and attackers of the previous generation leave the graph.
+        # Detach them like remove_node and remove_attacker do, so that one of
+        # them added again later does not drag references to the others in.
+        for node in self.nodes:
+            node.children = []
+            node.parents = []
+            node.compromised_by = []
+        for attacker in self.attackers:
+            attacker.entry_points = []
+            attacker.reached_attack_steps = []
+
         self.nodes = []
         self.attackers = []
         self._id_to_node = {}
